@@ -96,7 +96,8 @@ func VerifC17PullEvents() {
 			sub, _ := kitRtmpSession()
 			g.AddRtmpSubSession(sub)
 			if !(pre.staticRelayPullEnable || pre.apiEnable) {
-				vrt.Assert(!pp.isSessionPulling, "a subscriber does not start a pull that is not enabled")
+				// an attempt started earlier may still be in flight after an API stop; the arrival starts none
+				vrt.Assert(pp.isSessionPulling == pre.isSessionPulling && pp.startCount == pre.startCount, "a subscriber does not start a pull that is not enabled")
 			}
 		case 4: // the in-flight attempt fails
 			if pre.isSessionPulling && !g.hasPullSession() {
